@@ -95,7 +95,7 @@ const (
 	OFpFromUInt
 	OFpToSInt // FP -> BV (RTZ), A = width
 	OFpToUInt
-	OFpToFp // FP -> FP other width (RNE)
+	OFpToFp     // FP -> FP other width (RNE)
 	OFpRoundRNA // roundToIntegral, ties away from zero
 	OFpRoundRTZ // roundToIntegral toward zero
 	// strings
